@@ -199,7 +199,7 @@ def x_values(spec: dict):
     fin = [v for v in spec["p"] if math.isfinite(v)] if spec["cls"] != "Discrete" else spec["p"][0::2]
     lo, hi = (min(fin), max(fin)) if fin else (-1.0, 1.0)
     if spec["cls"] in ("Bell", "Cosine", "Spike", "Gaussian"):
-        c, w = spec["p"][0], spec["p"][1]
+        c, w = spec["p"][0], abs(spec["p"][1])
         lo, hi = c - 3 * w, c + 3 * w
     elif spec["cls"] == "Sigmoid":
         c, s = spec["p"]
